@@ -1,1 +1,304 @@
-(* C02 proofs: in progress *)
+(* Proofs for Props/C02.v (progress).  [progress] is the fault half of the invariant [C01Proofs.eval_invariant];
+   [terminates], [total_builtins] and [mod_fails_iff] are about the evaluator and the library alone: they use the
+   compositional predicate [avoid] (which failures / faults a computation can never end in). *)
+From Coq Require Import List String Ascii Bool Arith NArith ZArith Lia.
+From Yae Require Import Base.Sexp Model.Ty Gen.Generated Model.Unify Model.TySpec Model.Num Model.Lexer Model.Literal Model.Cst
+  Model.Check Model.CheckSpec Model.Val Model.Render Model.ValSpec Model.Builtins Model.Eval Model.EvalSpec
+  Proofs.C01Proofs.
+Import ListNotations.
+Local Open Scope nat_scope.
+Local Open Scope string_scope.
+
+Lemma progress ops orc : forall fe G rho fuel fresh e a T f t k,
+  (fe = builtin_fenv \/ fe = fenv_std) ->
+  tenv_ok G = true -> env_ok G rho -> fresh_ok fe fresh ->
+  check fe G fuel fresh e = COk (a, T) ->
+  eval ops orc fe rho f a = (t, OFault k) -> k = XFuel.
+Proof. exact (progress_inv ops orc). Qed.
+
+(* ------------------------------------------------------------------------------------------------ *)
+(* outcomes a computation never has                                                                  *)
+(* ------------------------------------------------------------------------------------------------ *)
+
+Section Avoid.
+  Variable bfail : failk -> Prop.
+  Variable bfault : faultk -> Prop.
+
+  Definition avoid {X} (m : M X) : Prop :=
+    match snd m with OVal _ => True | OFail k => ~ bfail k | OFault k => ~ bfault k end.
+
+  Lemma av_ret {X} (x : X) : avoid (ret x).
+  Proof. exact I. Qed.
+  Lemma av_fail {X} k : ~ bfail k -> avoid (@fail X k).
+  Proof. intros H. exact H. Qed.
+  Lemma av_fault {X} k : ~ bfault k -> avoid (@fault X k).
+  Proof. intros H. exact H. Qed.
+  Lemma av_bind {X Y} (m : M X) (k : X -> M Y) : avoid m -> (forall x, avoid (k x)) -> avoid (mbind m k).
+  Proof.
+    destruct m as [t [x|fk|fk]]; unfold avoid; simpl; intros H1 H2; try assumption.
+    specialize (H2 x). destruct (k x) as [t' o']. exact H2.
+  Qed.
+  Lemma av_emit e : avoid (emit e).
+  Proof. exact I. Qed.
+  Lemma av_mmapM {X Y} (g : X -> M Y) : forall xs, Forall (fun x => avoid (g x)) xs -> avoid (mmapM g xs).
+  Proof.
+    induction 1 as [|x xs Hx Hr IH]; simpl; [apply av_ret|].
+    apply av_bind; [exact Hx|]. intros y. apply av_bind; [exact IH|]. intros ys. apply av_ret.
+  Qed.
+  Lemma avoid_fail {X} (m : M X) t k : avoid m -> m = (t, OFail k) -> ~ bfail k.
+  Proof. intros H E. subst m. exact H. Qed.
+  Lemma avoid_fault {X} (m : M X) t k : avoid m -> m = (t, OFault k) -> ~ bfault k.
+  Proof. intros H E. subst m. exact H. Qed.
+End Avoid.
+Global Opaque avoid.
+
+(* side conditions: "this failure / fault is not one of the excluded ones" *)
+Ltac av_side := solve [ intros [] | intro; discriminate | discriminate | tauto | congruence ].
+
+Ltac av_step :=
+  first
+    [ apply av_ret
+    | apply av_emit
+    | apply av_fail; av_side
+    | apply av_fault; av_side
+    | assumption
+    | apply av_bind; [|intros]
+    | match goal with H : Forall _ (_ :: _) |- _ => inversion H; subst; clear H end
+    | match goal with |- avoid _ _ (match ?x with _ => _ end) => destruct x end
+    | match goal with |- avoid _ _ (if ?c then _ else _) => destruct c end
+    | progress cbv zeta ].
+Ltac av := repeat av_step.
+
+Section AvoidSem.
+  Variable ops : numops.
+  Variable orc : oracles.
+  Variable bfail : failk -> Prop.
+  Variable bfault : faultk -> Prop.
+  (* the library's own faults are not among the excluded ones *)
+  Hypothesis Hother : ~ bfault XOther.
+  Hypothesis Hconf : ~ bfault XTypeConf.
+  Notation av_ := (avoid bfail bfault).
+
+  Lemma av_as_num v : av_ (as_num v). Proof. unfold as_num. av. Qed.
+  Lemma av_as_bool v : av_ (as_bool v). Proof. unfold as_bool. av. Qed.
+  Lemma av_as_str v : av_ (as_str v). Proof. unfold as_str. av. Qed.
+  Lemma av_as_time v : av_ (as_time v). Proof. unfold as_time. av. Qed.
+  Lemma av_as_list v : av_ (as_list v). Proof. unfold as_list. av. Qed.
+  Lemma av_as_map v : av_ (as_map v). Proof. unfold as_map. av. Qed.
+  Lemma av_key_of v : av_ (key_of ops v). Proof. unfold key_of. av. Qed.
+
+  Lemma av_fold_num f vs : av_ (fold_num ops f vs).
+  Proof.
+    unfold fold_num. destruct vs as [|v0 r]; [apply av_ret|].
+    apply av_bind; [apply av_as_num|]. intros x0. apply av_bind; [|intros; apply av_ret].
+    revert x0. induction r as [|v r IH]; intros acc; [apply av_ret|].
+    apply av_bind; [apply av_as_num|]. intros x. apply IH.
+  Qed.
+End AvoidSem.
+
+Ltac av_lib :=
+  repeat first
+    [ apply av_as_num; av_side | apply av_as_bool; av_side | apply av_as_str; av_side
+    | apply av_as_time; av_side | apply av_as_list; av_side | apply av_as_map; av_side
+    | apply av_key_of; av_side | apply av_fold_num; av_side
+    | av_step ].
+
+(* ------------------------------------------------------------------------------------------------ *)
+(* the fuel fault comes from [eval] alone                                                            *)
+(* ------------------------------------------------------------------------------------------------ *)
+
+Definition nofuel {X} (m : M X) : Prop := avoid (fun _ => False) (fun k => k = XFuel) m.
+
+Section NoFuel.
+  Variable ops : numops.
+  Variable orc : oracles.
+
+  Lemma nf_bsem b args : nofuel (bsem ops orc b args).
+  Proof. unfold nofuel. destruct b; unfold bsem, num1, num2, time2, any2; av_lib. Qed.
+
+  Lemma nf_host_strict name args : nofuel (host_strict ops name args).
+  Proof. unfold nofuel, host_strict. av_lib. Qed.
+
+  Lemma nf_host_lazy name ths : Forall (fun th : unit -> M val => nofuel (th tt)) ths -> nofuel (host_lazy name ths).
+  Proof. unfold nofuel, host_lazy. intros H. av_lib. Qed.
+
+  Lemma nf_apply_lazy sg ths : Forall (fun th : unit -> M val => nofuel (th tt)) ths -> nofuel (apply_lazy sg ths).
+  Proof.
+    intros H. unfold apply_lazy. destruct (classify (s_name sg) (s_params sg)) as [b|]; [|apply nf_host_lazy; exact H].
+    destruct b; try (apply nf_host_lazy; exact H); unfold nofuel in *; av_lib.
+  Qed.
+
+  Lemma nf_apply_strict sg args : nofuel (apply_strict ops orc sg args).
+  Proof.
+    unfold apply_strict. destruct (sig_is_builtin sg); [|apply nf_host_strict].
+    destruct (classify (s_name sg) (s_params sg)); [apply nf_bsem|]. unfold nofuel. av.
+  Qed.
+
+  Section WithEnv.
+    Variables (fe : fenv) (rho : venv).
+    Notation ev := (eval ops orc fe rho).
+
+    Lemma nf_do_call f sg args : Forall (fun x => nofuel (ev f x)) args -> nofuel (do_call ops orc fe rho f sg args).
+    Proof.
+      intros H. unfold do_call, lazy_call. destruct (s_lazy sg).
+      - assert (Forall (fun th : unit -> M val => nofuel (th tt)) (map (fun x (_ : unit) => ev f x) args)) as Hth.
+        { apply Forall_forall. intros th Hin. apply in_map_iff in Hin. destruct Hin as [x [<- Hin]].
+          rewrite Forall_forall in H. apply H. exact Hin. }
+        destruct (sig_is_builtin sg); [apply nf_apply_lazy|apply nf_host_lazy]; exact Hth.
+      - apply av_bind; [apply av_mmapM; exact H|]. intros vs. apply nf_apply_strict.
+    Qed.
+
+    Lemma nf_map_go g : forall kvs,
+      Forall (fun kv : aexpr * aexpr => nofuel (g (fst kv)) /\ nofuel (g (snd kv))) kvs ->
+      forall acc, nofuel (map_go ops g kvs acc).
+    Proof.
+      induction 1 as [|[k v] r [Hk Hv] Hr IH]; intros acc; simpl; unfold nofuel in *; [apply av_ret|].
+      simpl in Hk, Hv. apply av_bind; [exact Hk|]. intros kv. apply av_bind; [apply av_key_of; discriminate|].
+      intros kk. apply av_bind; [exact Hv|]. intros vv. apply IH.
+    Qed.
+
+    (* [fuel_ok n a]: from n on, fuel never runs out on a *)
+    Definition fuel_ok (n : nat) (a : aexpr) : Prop := forall f, n <= f -> nofuel (ev f a).
+
+    Lemma fuel_ok_mono n m a : n <= m -> fuel_ok n a -> fuel_ok m a.
+    Proof. intros L H f Hf. apply H. lia. Qed.
+
+    Lemma fuel_ok_all (l : list aexpr) : Forall (fun a => exists n, fuel_ok n a) l -> exists n, Forall (fuel_ok n) l.
+    Proof.
+      induction 1 as [|a r [n Hn] Hr [m Hm]]; [exists 0; constructor|].
+      exists (Nat.max n m). constructor; [eapply fuel_ok_mono; [|exact Hn]; lia|].
+      eapply Forall_impl; [|exact Hm]. intros x Hx. eapply fuel_ok_mono; [|exact Hx]. lia.
+    Qed.
+  End WithEnv.
+End NoFuel.
+
+(* induction principle for the nested inductive [aexpr] *)
+Section AexprInd.
+  Variable P : aexpr -> Prop.
+  Hypothesis Hstr : forall v, P (AStr v).
+  Hypothesis Hnum : forall t n, P (ANum t n).
+  Hypothesis Htime : forall t, P (ATime t).
+  Hypothesis Hbool : forall b, P (ABool b).
+  Hypothesis Hlist : forall t es, Forall P es -> P (AList t es).
+  Hypothesis Hmap : forall t kvs, Forall (fun kv => P (fst kv) /\ P (snd kv)) kvs -> P (AMap t kvs).
+  Hypothesis Hobj : forall t fs, Forall (fun f => P (snd f)) fs -> P (AObj t fs).
+  Hypothesis Hident : forall c n, P (AIdent c n).
+  Hypothesis Hcall : forall c key idx ft f args, P f -> Forall P args -> P (ACall c key idx ft f args).
+  Hypothesis Hsub : forall c vt v i, P v -> P i -> P (ASub c vt v i).
+  Hypothesis Hmember : forall c ot idx o n, P o -> P (AMember c ot idx o n).
+
+  Fixpoint aexpr_ind' (a : aexpr) : P a :=
+    match a with
+    | AStr v => Hstr v | ANum t n => Hnum t n | ATime t => Htime t | ABool b => Hbool b
+    | AList t es => Hlist t es ((fix go (l : list aexpr) : Forall P l :=
+                                  match l with [] => Forall_nil _ | x :: r => Forall_cons _ (aexpr_ind' x) (go r) end) es)
+    | AMap t kvs => Hmap t kvs ((fix go (l : list (aexpr * aexpr)) : Forall (fun kv => P (fst kv) /\ P (snd kv)) l :=
+                                   match l with
+                                   | [] => Forall_nil _
+                                   | x :: r => Forall_cons _ (conj (aexpr_ind' (fst x)) (aexpr_ind' (snd x))) (go r)
+                                   end) kvs)
+    | AObj t fs => Hobj t fs ((fix go (l : list (string * aexpr)) : Forall (fun f => P (snd f)) l :=
+                                 match l with [] => Forall_nil _ | x :: r => Forall_cons _ (aexpr_ind' (snd x)) (go r) end) fs)
+    | AIdent c n => Hident c n
+    | ACall c key idx ft f args =>
+        Hcall c key idx ft f args (aexpr_ind' f)
+          ((fix go (l : list aexpr) : Forall P l :=
+              match l with [] => Forall_nil _ | x :: r => Forall_cons _ (aexpr_ind' x) (go r) end) args)
+    | ASub c vt v i => Hsub c vt v i (aexpr_ind' v) (aexpr_ind' i)
+    | AMember c ot idx o n => Hmember c ot idx o n (aexpr_ind' o)
+    end.
+End AexprInd.
+
+Section Terminates.
+  Variables (ops : numops) (orc : oracles) (fe : fenv) (rho : venv).
+  Notation ev := (eval ops orc fe rho).
+  Notation fok := (fuel_ok ops orc fe rho).
+
+  Lemma leaf_ok a : (forall f, nofuel (ev (S f) a)) -> exists n, fok n a.
+  Proof. intros H. exists 1. intros [|f] Hf; [lia|apply H]. Qed.
+
+  Lemma fuel_enough : forall a, exists n, fok n a.
+  Proof.
+    induction a using aexpr_ind'.
+    - apply leaf_ok. intros f. apply av_ret.
+    - apply leaf_ok. intros f. apply av_ret.
+    - apply leaf_ok. intros f. apply av_ret.
+    - apply leaf_ok. intros f. apply av_ret.
+    - (* list *)
+      destruct (fuel_ok_all ops orc fe rho es H) as [n Hn]. exists (S n). intros [|f] Hf; [lia|].
+      rewrite eval_list. destruct es as [|e0 r]; [apply av_ret|].
+      apply av_bind; [|intros; apply av_ret]. apply av_mmapM.
+      eapply Forall_impl; [|exact Hn]. intros x Hx. apply Hx. lia.
+    - (* map *)
+      assert (exists n, Forall (fun kv => fok n (fst kv) /\ fok n (snd kv)) kvs) as [n Hn].
+      { induction H as [|kv r [[n1 H1] [n2 H2]] Hr [m Hm]]; [exists 0; constructor|].
+        exists (Nat.max (Nat.max n1 n2) m). constructor.
+        - split; (eapply fuel_ok_mono; [|eassumption]; lia).
+        - eapply Forall_impl; [|exact Hm]. intros x [Hx1 Hx2]. split; (eapply fuel_ok_mono; [|eassumption]; lia). }
+      exists (S n). intros [|f] Hf; [lia|]. rewrite eval_map. destruct kvs as [|kv0 r]; [apply av_ret|].
+      apply av_bind; [|intros; apply av_ret]. apply nf_map_go.
+      eapply Forall_impl; [|exact Hn]. intros x [Hx1 Hx2]. split; [apply Hx1|apply Hx2]; lia.
+    - (* obj *)
+      assert (exists n, Forall (fun nf : string * aexpr => fok n (snd nf)) fs) as [n Hn].
+      { induction H as [|x r [n1 H1] Hr [m Hm]]; [exists 0; constructor|].
+        exists (Nat.max n1 m). constructor; [(eapply fuel_ok_mono; [|eassumption]; lia)|].
+        eapply Forall_impl; [|exact Hm]. intros y Hy. cbv beta in Hy. (eapply fuel_ok_mono; [|eassumption]; lia). }
+      exists (S n). intros [|f] Hf; [lia|]. rewrite eval_obj. destruct fs as [|f0 r]; [apply av_ret|].
+      apply av_bind; [|intros; apply av_ret]. apply av_mmapM.
+      eapply Forall_impl; [|exact Hn]. intros x Hx. apply Hx. lia.
+    - (* ident *)
+      apply leaf_ok. intros f. rewrite eval_ident. destruct (assoc n rho); [apply av_ret|apply av_fault; discriminate].
+    - (* call *)
+      destruct IHa as [nc Hc]. destruct (fuel_ok_all ops orc fe rho args H) as [n Hn].
+      exists (S (Nat.max nc n)). intros [|f] Hf; [lia|]. rewrite eval_call.
+      assert (Forall (fun x => nofuel (ev f x)) args) as Hargs.
+      { eapply Forall_impl; [|exact Hn]. intros x Hx. apply Hx. lia. }
+      destruct (String.eqb key "").
+      + apply av_bind; [apply Hc; lia|]. intros fv.
+        destruct fv; try (apply av_fault; discriminate). destruct t; try (apply av_fault; discriminate).
+        apply nf_do_call. exact Hargs.
+      + destruct (lookup_fn fe key idx); [apply nf_do_call; exact Hargs|apply av_fault; discriminate].
+    - (* sub *)
+      destruct IHa1 as [n1 H1]. destruct IHa2 as [n2 H2]. exists (S (Nat.max n1 n2)). intros [|f] Hf; [lia|].
+      rewrite eval_sub. apply av_bind; [apply H1; lia|]. intros x.
+      assert (nofuel (ev f a2)) as Hi by (apply H2; lia). unfold nofuel in *.
+      destruct x; av_lib.
+    - (* member *)
+      destruct IHa as [n1 H1]. exists (S n1). intros [|f] Hf; [lia|].
+      rewrite eval_member. apply av_bind; [apply H1; lia|]. intros x. unfold nofuel. destruct x; av.
+  Qed.
+End Terminates.
+
+Lemma terminates ops orc : forall fe rho a,
+  exists f0, forall f, (f0 <= f)%nat -> forall t, eval ops orc fe rho f a <> (t, OFault XFuel).
+Proof.
+  intros fe rho a. destruct (fuel_enough ops orc fe rho a) as [n Hn]. exists n. intros f Hf t E.
+  apply (avoid_fault _ _ _ t XFuel (Hn f Hf) E). reflexivity.
+Qed.
+
+(* ------------------------------------------------------------------------------------------------ *)
+(* total library functions; the modulo failure                                                       *)
+(* ------------------------------------------------------------------------------------------------ *)
+
+Lemma total_builtins ops orc : forall b args,
+  In b [BGetList; BGetMap; BGetMaybe; BIsset; BMaxList; BMinList; BLenList; BLenMap; BLenStr; BString; BUnion; BIntersect; BDiff] ->
+  forall k t, bsem ops orc b args <> (t, OFail k).
+Proof.
+  intros b args Hin k t E.
+  assert (avoid (fun _ => True) (fun _ => False) (bsem ops orc b args)) as H.
+  { simpl in Hin. repeat (destruct Hin as [<-|Hin]; [unfold bsem; av_lib|]). destruct Hin. }
+  apply (avoid_fail _ _ _ t k H E). exact I.
+Qed.
+
+Lemma mod_fails_iff ops orc : forall x y,
+  (exists t, bsem ops orc BMod [VNum x; VNum y] = (t, OFail FModZero)) <-> to_i64 ops y = 0%Z.
+Proof.
+  intros x y. simpl. split.
+  - intros [t H]. destruct (Z.eqb_spec (to_i64 ops y) 0) as [E|E]; [exact E|discriminate H].
+  - intros E. rewrite E. simpl. exists []. reflexivity.
+Qed.
+
+Print Assumptions progress.
+Print Assumptions terminates.
+Print Assumptions total_builtins.
+Print Assumptions mod_fails_iff.
